@@ -618,6 +618,19 @@ def run(ctx: lib.Ctx) -> None:
                     except (AssertionError, KeyError, TypeError, ValueError, IndexError):
                         raise lib.InternalError(f'cannot read back {mv!r} for {ty_json(t)}')
                     emit(f'from:{"ok" if okf else "reject"}', f'(QFrom {obc})', f'(AFrom {cok(ac)})')
+                    # (B) every accepted spelling must encode to a *valid* value (sorted, duplicate-free collections …)
+                    # that decodes and re-encodes to itself
+                    if okf and mutated:
+                        v2 = json_val(t, mv)
+                        okv, o3 = lib.call(lambda: impl.T.from_micheline_value(mv).to_python_object(lazy_diff=None))
+                        if not okv:
+                            fail(t, v2, f'from_python_object({ob!r}) produced {mv!r}, which is not a valid value of the type: {o3!r}',
+                                 {'python': repr(ob), 'encoded': mv})
+                        else:
+                            okb3, back3 = impl.frm(o3)
+                            if not okb3 or canon(back3) != canon(mv):
+                                fail(t, v2, f'encode({ob!r}) = {mv!r} decodes to {o3!r} which encodes to {back3!r}',
+                                     {'python': repr(ob), 'encoded': mv})
             # comparable rendering (map keys / set elements use it)
             if is_comparable(t) and rng.random() < 0.5:
                 okc, oc_ = impl.to(m, cmp=True)
@@ -635,7 +648,7 @@ def run(ctx: lib.Ctx) -> None:
         ctx.corpus_cases += 1
     for t in FIXED_TYPES:
         add_type(t, 4, 'fixed')
-    ntypes = ctx.n(120, 1800)
+    ntypes = ctx.n(300, 4000)
     for i in range(ntypes):
         depth = rng.choice([1, 2, 2, 3, 3, 4])
         k = rng.random()
@@ -643,6 +656,12 @@ def run(ctx: lib.Ctx) -> None:
         if rng.random() < 0.3:
             t[1] = gen_annot(rng, set(), 0.3)
         add_type(t, ctx.n(3, 4), 'gen')
+
+    def report(what, extra):
+        if len(viol) < 3:
+            viol.append(1)
+            ctx.violation(what, extra)
+    entrypoint_checks(ctx, report)
 
     bad_groups = ctx.coq_mismatches('py', IMPORTS, 'fun c => map (run_query (fst c)) (snd c)', 'list_eqb answer_eqb',
                                     'aty * list query', 'list answer', cases, shard=50)
@@ -663,6 +682,82 @@ def run(ctx: lib.Ctx) -> None:
                       {'correspondence': CORR, 'disagreements': len(bad), 'type': ty_json(t), 'type_tuple': t, 'query_kind': qk,
                        'query_coq': qc, 'observed_coq': ac, 'model': ctx.coq_eval(IMPORTS, f'run_query {ty_coq(t)} {qc}')}, found=False)
 
+
+
+# ---- ContractEntrypoint.encode / decode: oracle (B) only (composition of C13's resolution with the conversions above) ----
+def _json_some_none(m):
+    if isinstance(m, list):
+        return any(_json_some_none(x) for x in m)
+    if isinstance(m, dict):
+        if m.get('prim') == 'Some' and m.get('args') and isinstance(m['args'][0], dict) and m['args'][0].get('prim') == 'None':
+            return True
+        return any(_json_some_none(x) for x in m.get('args', []) or [])
+    return False
+
+
+def _c13_to_c12(t):
+    """c13 type tuple -> c12 type list (for the collision class test)"""
+    def sty(s, fn=None, tn=None):
+        return [s[0], fn, tn] + [sty(x) for x in s[1:]]
+    if t[0] == 'leaf':
+        return sty(t[2], t[1], t[3])
+    return ['or', t[1], t[4], _c13_to_c12(t[2]), _c13_to_c12(t[3])]
+
+
+def entrypoint_checks(ctx, report):
+    """For listed entrypoint e and argument a: obj = python object of a; ContractEntrypoint(e).encode(obj) must denote the
+    same full parameter as (e, a); decoding it and encoding the decoded object at the root entrypoint must give it again."""
+    import c13
+    from pytezos.context.impl import ExecutionContext
+    from pytezos.contract.entrypoint import ContractEntrypoint
+    from pytezos.michelson.sections.parameter import ParameterSection
+    rng = ctx.rng
+    for _ in range(ctx.n(60, 600)):
+        used: set = set()
+        t = c13.gen_ty(rng, rng.choice([0, 1, 2, 2, 3]), used, p_or=0.9, annot_p=rng.choice([0.4, 1.0]))
+        sp = c13.spec(t)
+        if not sp['wf'] or sp['collide']:
+            continue
+        expr = {'prim': 'parameter', 'args': [c13.ty_json(t)]}
+        ok, P = lib.call(ParameterSection.match, expr)
+        if not ok:
+            continue
+        ectx = ExecutionContext()
+        ectx.parameter_expr = expr
+        ents = [(k, p, n) for k, p, n in sp['branches']] + [(sp['root'], '', t)]
+        for e, epath, node in rng.sample(ents, min(3, len(ents))):
+            lp, _ = rng.choice(c13.leaves(node))
+            a, _ = c13.gen_val(rng, node, lp)
+            t12 = _c13_to_c12(t)
+            known = []
+            if _json_some_none(a):
+                known.append(ctx.finding('nested-option'))
+            if collides(t12):
+                known.append(ctx.finding('generated-name-collision'))
+            ctx.case(('entrypoint', json.dumps(expr), e, json.dumps(a)), nontrivial=t[0] == 'or', kind='entrypoint-codec')
+
+            def run():
+                full = P.from_parameters({'entrypoint': e, 'value': a}).to_micheline_value()
+                obj = P.list_entrypoints()[e].from_micheline_value(a).to_python_object()
+                enc = ContractEntrypoint(ectx, e).encode(obj)
+                if canon(P.from_parameters(enc).to_micheline_value()) != canon(full):
+                    return f'ContractEntrypoint({e!r}).encode({obj!r}) = {enc!r} does not denote the parameter built from ({e!r}, arg)'
+                dec = ContractEntrypoint(ectx, enc['entrypoint']).decode(enc['value'])
+                inner = dec if t[0] == 'or' else dec[sp['root']]
+                enc2 = ContractEntrypoint(ectx, sp['root']).encode(inner)
+                if canon(P.from_parameters(enc2).to_micheline_value()) != canon(full):
+                    return f'decode gave {dec!r}; encoding it back gives {enc2!r}, a different parameter'
+                return None
+            okr, why = lib.call(run)
+            if not okr:
+                why = f'ContractEntrypoint encode/decode raised {why!r}'
+            if why:
+                known = [k for k in known if k]
+                if known:
+                    ctx.known_hit(known[0])
+                else:
+                    report(why, {'parameter': expr, 'entrypoint': e, 'argument': a,
+                                 'repro': "ctx=ExecutionContext(); ctx.parameter_expr=parameter; ContractEntrypoint(ctx, entrypoint).encode(<python object of argument>)"})
 
 def maybe_unmodelled(t, o):
     """Conservative test for mutated objects: could a bool reach an int/nat/big_map reader, or a str a bytes reader?
